@@ -16,6 +16,11 @@ def _work(item):
         _, cfgs, props, max_exec = item
         outs = [e2.explore_config((c, props, max_exec)) for c in cfgs]
         return ('e2', outs)
+    if kind == 'e3':
+        from . import e3
+        _, cfgs, props, max_exec, max_dev = item
+        outs = [e3.explore_config_e3((c, props, max_exec, max_dev)) for c in cfgs]
+        return ('e3', outs)
     if kind == 'serial':
         _, cfgs, props = item
         outs = []
@@ -42,6 +47,7 @@ def chunks(seq: list, size: int):
 
 
 def run_e2_property(prop: str, tier: str, seed: int, configs: Iterable, *, serial_configs: Iterable = (),
+                    e3_configs: Iterable = (), e3_max_exec: Optional[int] = 20000, e3_max_dev: Optional[int] = None,
                     props: Optional[Sequence[str]] = None, max_exec_per_cfg: Optional[int] = None,
                     rule: str = '', assumptions: Sequence[str] = (), chunk: int = 40,
                     extra_cov: Optional[dict] = None) -> Result:
@@ -50,6 +56,11 @@ def run_e2_property(prop: str, tier: str, seed: int, configs: Iterable, *, seria
     serial_configs = rotate(list(serial_configs), seed)
     items = [('e2', c, props, max_exec_per_cfg) for c in chunks(configs, chunk)]
     items += [('serial', c, props) for c in chunks(serial_configs, chunk)]
+    e3_configs = rotate(list(e3_configs), seed)
+    # E3 configurations differ a lot in cost: small chunks, biggest DAGs first
+    e3_sorted = sorted(e3_configs, key=lambda c: (-c.spec.n, -(c.max_workers or 9)))
+    items = [('e3', c, props, e3_max_exec, e3_max_dev) for c in chunks(e3_sorted, 6)] + items
+    e3_exec = e3_cfgs = 0
     executions = states = transitions = 0
     n_cfg = 0
     capped = 0
@@ -62,9 +73,12 @@ def run_e2_property(prop: str, tier: str, seed: int, configs: Iterable, *, seria
     samples = []
     busiest = None
     for kind, outs in pmap(_work, items):
-        if kind == 'e2':
+        if kind in ('e2', 'e3'):
             for o in outs:
                 n_cfg += 1
+                if kind == 'e3':
+                    e3_exec += o['executions']
+                    e3_cfgs += 1
                 executions += o['executions']
                 states += o['states']
                 transitions += o['transitions']
@@ -104,6 +118,8 @@ def run_e2_property(prop: str, tier: str, seed: int, configs: Iterable, *, seria
         'configurations': n_cfg,
         'executions_e2': executions,
         'real_serial_runs': serial_runs,
+        'executions_e3_real_process_runner_over_virtual_os': e3_exec,
+        'configurations_e3': e3_cfgs,
         'configs_with_several_outcomes': multi_outcome_cfgs,
         'max_choice_depth': max_depth,
         'capped_configurations': capped,
@@ -131,4 +147,7 @@ def replay(payload: dict) -> int:
         for k, m in found:
             print(f"  {payload['prop']}:{k}: {m}")
         return 1 if found else 0
+    if payload.get('engine') == 'e3':
+        from . import e3
+        return e3.replay(payload)
     return e2.replay(payload)
